@@ -388,15 +388,14 @@ class Reader:
         if "out" not in kwargs:
             kwargs["out"] = self.file_bin.with_suffix(".bin")
         assert self.is_mtscomp
-        r = mtscomp.decompress(
-            self.file_bin, self.file_bin.with_suffix(".ch"), **kwargs
-        )
+        ch_file = self.ch_file or _get_companion_file(self.file_bin, ".ch")
+        r = mtscomp.decompress(self.file_bin, ch_file, **kwargs)
         r.close()
         if not keep_original:
             was_open = self.is_open
             self.close()
             self.file_bin.unlink()
-            self.file_bin.with_suffix(".ch").unlink()
+            Path(ch_file).unlink()
             self.file_bin = kwargs["out"]
             self.nbytes = Path(self.file_bin).stat().st_size
             self._raw = None
@@ -431,7 +430,7 @@ class Reader:
         :return: boolean
         """
         if self.is_mtscomp:
-            with open(self.file_bin.with_suffix(".ch")) as fid:
+            with open(self.ch_file or _get_companion_file(self.file_bin, ".ch")) as fid:
                 mtscomp_params = json.load(fid)
             sm = mtscomp_params.get("sha1_compressed", None)
             if sm is None:
